@@ -2,6 +2,7 @@
 import H3Model.Proto
 import H3Model.EdgeVertex
 import H3Model.Compact
+import H3Model.Hex2d
 
 namespace H3.Ops
 open H3 H3.Proto
@@ -169,6 +170,18 @@ def opsTrav (op : String) (a : List String) : Option String :=
     let (r, a) := compactCells sched cells.toArray
     let rs := match r with | .ok _ => "ok" | .error e => "err " ++ toString e.code
     pure (rs ++ allocTail a)
+  | "hex2d", [x, y] => do
+    let x ← parseHexNat x; let y ← parseHexNat y
+    let c := hex2dToCoordIJKFloat (Float.ofBits x.toUInt64) (Float.ofBits y.toUInt64)
+    pure s!"ok {c.i} {c.j} {c.k}"
+  | "ll2c", [lat, lng, r] => do
+    -- argument validation only (the projection is not modelled): E_RES_DOMAIN before E_LATLNG_DOMAIN
+    let lat ← parseHexNat lat; let lng ← parseHexNat lng; let r ← parseInt r
+    let la := Float.ofBits lat.toUInt64
+    let ln := Float.ofBits lng.toUInt64
+    match latLngToCellArgs r la.isFinite ln.isFinite with
+    | some e => pure ("err " ++ toString e.code)
+    | none => pure "skip"
   | "adisk", [failAt, from_, h, k, want] => do
     let failAt ← failAt.toNat?
     let h ← parseH h; let k ← parseInt k
